@@ -21,6 +21,7 @@ class FS:
         self.fail_at = None
         self.crash_at = None
         self.split = split_writes
+        self.links = {}          # symbolic links: path -> target path
         self.on_op = None        # callback(opindex, name, label) - used for contention experiments
 
     # fault points
@@ -45,13 +46,24 @@ class FS:
 
     def listing(self):
         out = {"main": False, "bak": False, "tmp": False}
+        # with a symbolic link two directories are in play: a stale temp file left in the old target directory is not
+        # "the" temp file of a save that now works in another directory
+        cur = os.path.dirname(self.resolve(self.main_path)) if getattr(self, "main_path", None) else None
         for p in self.vol:
-            out[self.label(p)] = True
+            lab = self.label(p)
+            if lab == "tmp" and cur is not None and os.path.dirname(p) != cur:
+                continue
+            out[lab] = True
         return out
+
+    def resolve(self, p):
+        return self.links.get(p, p)
 
     def after_crash(self, lose):
         """File system seen by the next process."""
         n = FS(self.split)
+        n.links = dict(self.links)
+        n.main_path = getattr(self, "main_path", None)
         for p, v in self.vol.items():
             c = self.dur.get(p, b"") if lose else v
             n.vol[p] = c
@@ -60,6 +72,7 @@ class FS:
 
     def clone(self):
         n = FS(self.split)
+        n.links = dict(self.links)
         n.vol = dict(self.vol)
         n.dur = dict(self.dur)
         return n
@@ -69,6 +82,7 @@ class F:
     """File object returned by the shimmed open()."""
 
     def __init__(self, fs, path, mode, encoding=None):
+        path = fs.resolve(path)
         self.fs, self.path, self.mode = fs, path, mode
         self.bin = "b" in mode
         self.closed = False
@@ -156,12 +170,12 @@ class OsProxy:
     def __init__(self, fs):
         self.fs = fs
         self.path = types.SimpleNamespace(
-            realpath=lambda p: p, isfile=self._isfile, dirname=os.path.dirname, splitext=os.path.splitext,
+            realpath=lambda p: fs.resolve(p), isfile=self._isfile, dirname=os.path.dirname, splitext=os.path.splitext,
             basename=os.path.basename)
 
     def _isfile(self, p):
         self.fs.op("isfile", p)
-        return p in self.fs.vol
+        return self.fs.resolve(p) in self.fs.vol
 
     def access(self, p, mode):
         return True
@@ -174,11 +188,15 @@ class OsProxy:
         self.fs.op("rename", a, self.fs.label(b))
         if a not in self.fs.vol:
             raise FileNotFoundError(errno.ENOENT, "no such file", a)
+        self.fs.links.pop(b, None)          # renaming onto a symbolic link replaces the link itself
         self.fs.vol[b] = self.fs.vol.pop(a)
         self.fs.dur[b] = self.fs.dur.pop(a, b"")
 
     def remove(self, a):
         self.fs.op("remove", a)
+        if a in self.fs.links:
+            del self.fs.links[a]
+            return
         if a not in self.fs.vol:
             raise FileNotFoundError(errno.ENOENT, "no such file", a)
         self.fs.vol.pop(a)
